@@ -24,7 +24,8 @@ from vlib.cmp import assert_shape, finite, close
 PROPERTY = "C13"
 RULE = ("Problems are built from a Hypothesis-drawn seed: r=1-8 unknowns, n=1-5 right-hand sides (vector for "
         "active_set), m=r..r+5 rows, U = Q1 diag(s) Q2^T with s in [1,kappa] (both extremes present), kappa in "
-        "{1,1.5,5,10,20,30}, signed or entrywise |.| (discarded and counted when the recomputed cond(U) > 30), "
+        "{1,1.5,5,10,20,30}, signed or entrywise |.|, or a small-integer design/right-hand side (exact ties and zero "
+        "gradients); discarded and counted when the recomputed cond(U) > 30; "
         "M = U(x*+d) + noise with x* >= 0 having a drawn fraction of zeros and d <= 0 pulling those entries negative "
         "so constraints are active; cold start and warm starts (positive / sparse / zero / exact solution / truth); "
         "sparsity and ridge coefficients k/16 in (0,1]. Solvers run to convergence (hals 3000-6000 sweeps tol=1e-24, "
@@ -76,10 +77,19 @@ def build(case):
     else:
         r, n, m = case["r"], case["n"], case["m"]
         rs = np.random.RandomState(case["seed"])
-        U = _design(rs, m, r, float(case["kappa"]), case["design"])
-        xs = np.abs(rs.standard_normal((r, n))) * (rs.uniform(size=(r, n)) >= case["p0"])
-        d = -case["pull"] * np.abs(rs.standard_normal((r, n))) * (xs == 0)
-        M = U @ (xs + d) + case["noise"] * rs.standard_normal((m, n))
+        if case["design"] == "int":
+            # small-integer data: exact ties, exactly-zero gradients, rounding-sensitive pivots
+            U = rs.randint(-3, 4, size=(m, r)).astype(float)
+            xs = rs.randint(1, 4, size=(r, n)) * (rs.uniform(size=(r, n)) >= case["p0"]).astype(float)
+            d = -np.ceil(case["pull"]) * rs.randint(0, 3, size=(r, n)) * (xs == 0)
+            M = U @ (xs + d) + (case["noise"] > 0) * rs.randint(-2, 3, size=(m, n))
+            if np.linalg.matrix_rank(U) < r:
+                discard("cond(U)>30")
+        else:
+            U = _design(rs, m, r, float(case["kappa"]), case["design"])
+            xs = np.abs(rs.standard_normal((r, n))) * (rs.uniform(size=(r, n)) >= case["p0"])
+            d = -case["pull"] * np.abs(rs.standard_normal((r, n))) * (xs == 0)
+            M = U @ (xs + d) + case["noise"] * rs.standard_normal((m, n))
     sv = np.linalg.svd(U, compute_uv=False)
     if sv[-1] <= 0 or sv[0] / sv[-1] > COND_MAX * (1 + 1e-9):
         discard("cond(U)>30")
@@ -91,7 +101,7 @@ def _problem(draw, vector=False):
     r = draw(st.sampled_from([1, 2, 3, 4, 5, 6, 7, 8]))
     return {"r": r, "n": 1 if vector else draw(st.integers(1, 5)), "m": r + draw(st.integers(0, 5)),
             "seed": draw(gen.seeds), "kappa": draw(st.sampled_from([1.0, 1.5, 5.0, 10.0, 20.0, 30.0])),
-            "design": draw(st.sampled_from(["signed", "signed", "abs"])),
+            "design": draw(st.sampled_from(["signed", "signed", "abs", "int"])),
             "p0": draw(st.sampled_from([0.0, 0.3, 0.5, 0.5, 0.7, 1.0])),
             "pull": draw(st.sampled_from([0.0, 0.5, 1.0, 2.0])),
             "noise": draw(st.sampled_from([0.0, 0.01, 0.3]))}
@@ -424,7 +434,7 @@ def o_as(group):
         if case["tol"] is not None:
             kw["tol"] = case["tol"]
         if case["warm"] is not None:
-            x0 = _warm(case["warm"], case, r, 1, xref)
+            x0 = gen.dec(case["x0"]).reshape(r, 1) if case.get("x0") else _warm(case["warm"], case, r, 1, xref)
             if not (x0 > 0).any():
                 x0 = None          # an all-zero start is the cold start
             else:
@@ -481,7 +491,7 @@ def subchecks(tier):
     variants = [("cold", "plain"), ("cold", "l1"), ("cold", "ridge"), ("cold", "l1ridge"), ("warm", "plain"), ("warm", "pen")]
     for init, var in variants:
         for grp in ("kkt", "ref"):
-            subs.append(SubCheck(f"hals/{init}/{var}/{grp}", _hals_case(var, init), o_hals(grp), quick=40, thorough=500,
+            subs.append(SubCheck(f"hals/{init}/{var}/{grp}", _hals_case(var, init), o_hals(grp), quick=30, thorough=500,
                                  budget_quick=75))
             subs.append(SubCheck(f"fista/{init}/{var}/{grp}", _fista_case(var, init), o_fista(grp), quick=40, thorough=500,
                                  budget_quick=75))
